@@ -96,7 +96,9 @@ pub struct Node {
 }
 
 /// Every violated clause of the statement (empty = well-formed); also the maximal depth reached.
-pub fn violated(root: &Node, subs: &[Node], depth_limit: usize) -> (BTreeSet<Clause>, usize) {
+/// `depth_limit` = None: the root itself (a subintent under `max_subintent_depth` 0) is already
+/// beyond the maximal depth, so no tree is within it.
+pub fn violated(root: &Node, subs: &[Node], depth_limit: Option<usize>) -> (BTreeSet<Clause>, usize) {
     let mut v = BTreeSet::new();
     let mut index: BTreeMap<Hash, usize> = BTreeMap::new();
     for (i, s) in subs.iter().enumerate() {
@@ -154,8 +156,11 @@ pub fn violated(root: &Node, subs: &[Node], depth_limit: usize) -> (BTreeSet<Cla
     if (0..subs.len()).any(|i| depth[i].is_none() && index.get(&subs[i].hash) == Some(&i)) {
         v.insert(Clause::Unreachable);
     }
-    if max_depth > depth_limit {
-        v.insert(Clause::Depth);
+    match depth_limit {
+        Some(l) if max_depth <= l => {}
+        _ => {
+            v.insert(Clause::Depth);
+        }
     }
     (v, max_depth)
 }
@@ -178,7 +183,7 @@ struct Draft {
 
 fn gen_draft(g: &mut Gen, max_depth_cfg: usize) -> (Draft, Vec<&'static str>) {
     let root_is_subintent = g.chance(1, 3);
-    let limit = if root_is_subintent { max_depth_cfg - 1 } else { max_depth_cfg };
+    let limit = if root_is_subintent { max_depth_cfg.saturating_sub(1) } else { max_depth_cfg };
     let salt = 1 + g.below(3) as u8;
     let n = g.len(8);
     // a well-formed tree first; chains reach around the depth limit
@@ -334,12 +339,18 @@ fn render_nodes(root: &Node, subs: &[Node]) -> String {
 }
 
 fn mock_case(g: &mut Gen) -> Outcome {
-    let max_depth_cfg = 1 + g.below(4) as usize; // 1..=4 (3 is the live value)
+    let max_depth_cfg = g.below(5) as usize; // 0..=4 (3 is the live value, 0 the babylon value)
     let cfg = TransactionValidationConfig { max_subintent_depth: max_depth_cfg, ..TransactionValidationConfig::latest() };
     let validator = TransactionValidator::new_with_static_config(cfg, NETWORK);
     let (d, applied) = gen_draft(g, max_depth_cfg);
-    let limit = if d.root_is_subintent { max_depth_cfg - 1 } else { max_depth_cfg };
+    // statement-level reading: a partial transaction's root subintent sits at depth >= 1 of any
+    // transaction it ends up in, so its descendants get max_subintent_depth - 1 levels; with
+    // max_subintent_depth = 0 the root subintent itself is already too deep (limit = None)
+    let limit: Option<usize> = if d.root_is_subintent { max_depth_cfg.checked_sub(1) } else { Some(max_depth_cfg) };
     let (viol, max_depth) = violated(&d.root, &d.subs, limit);
+    if max_depth_cfg == 0 {
+        g.label(if d.root_is_subintent { "max_subintent_depth 0, subintent root" } else { "max_subintent_depth 0, transaction root" });
+    }
     for m in &applied {
         g.label(m);
     }
@@ -348,20 +359,21 @@ fn mock_case(g: &mut Gen) -> Outcome {
     }
     g.label(if d.root_is_subintent { "root: subintent" } else { "root: transaction intent" });
     g.label(if viol.is_empty() { "reference: well-formed" } else { "reference: ill-formed" });
-    if d.subs.len() >= 3 && (viol.len() == 1 || (viol.is_empty() && max_depth == limit)) {
+    if d.subs.len() >= 3 && (viol.len() == 1 || (viol.is_empty() && Some(max_depth) == limit)) {
         g.nontrivial();
     }
-    if viol.is_empty() && max_depth == limit && limit > 0 {
+    if viol.is_empty() && Some(max_depth) == limit && max_depth > 0 {
         g.label("depth exactly at the limit");
     }
-    if viol.len() == 1 && viol.contains(&Clause::Depth) && max_depth == limit + 1 {
+    if viol.len() == 1 && viol.contains(&Clause::Depth) && limit.map(|l| max_depth == l + 1).unwrap_or(false) {
         g.label("depth one past the limit");
     }
-    g.sample(|| format!("depth limit {} (config {}), reference violations {:?}: {}", limit, max_depth_cfg, viol, render_nodes(&d.root, &d.subs)));
+    g.sample(|| format!("depth limit {:?} (config {}), reference violations {:?}: {}", limit, max_depth_cfg, viol, render_nodes(&d.root, &d.subs)));
     let tree = to_mock(&d);
     let got = catch(|| validator.validate_intents_and_structure(&tree).map(|_| ()).map_err(|e| format!("{:?}", e)));
-    let detail = || format!("depth limit {} (max_subintent_depth {}), max depth {}, mutations {:?}\n{}", limit, max_depth_cfg, max_depth, applied, render_nodes(&d.root, &d.subs));
+    let detail = || format!("depth limit {:?} (max_subintent_depth {}), root is subintent: {}, max depth {}, mutations {:?}\n{}", limit, max_depth_cfg, d.root_is_subintent, max_depth, applied, render_nodes(&d.root, &d.subs));
     match got {
+        Err(p) if max_depth_cfg == 0 && d.root_is_subintent => Outcome::fail(PANIC_DEPTH0, format!("{}\n{}", p, detail())),
         Err(p) => Outcome::fail("validate_intents_and_structure panics", format!("{}\n{}", p, detail())),
         Ok(Ok(())) => {
             if viol.is_empty() {
@@ -470,7 +482,7 @@ fn real_case(g: &mut Gen) -> Outcome {
     let (_, sub_hashes) = refhash::v2_intent(&intent);
     let root = node_of(&intent.root_intent_core, Hash([0xEE; 32]));
     let subs: Vec<Node> = intent.non_root_subintents.0.iter().zip(sub_hashes.iter()).map(|(s, h)| node_of(&s.intent_core, *h)).collect();
-    let (viol, max_depth) = violated(&root, &subs, limit);
+    let (viol, max_depth) = violated(&root, &subs, Some(limit));
     for c in &viol {
         g.label(c.label());
     }
@@ -512,15 +524,73 @@ fn real_case(g: &mut Gen) -> Outcome {
     }
 }
 
+pub const PANIC_DEPTH0: &str = "structure validation panics: max_subintent_depth 0 with a subintent root";
+
+/// Real signed partial transactions (subintent root, nesting up to 3 below the root) validated
+/// under max_subintent_depth 0..=3 through the public entry point.
+fn real_partial_case(g: &mut Gen) -> Outcome {
+    let max_depth_cfg = g.below(4) as usize;
+    let cfg = TransactionValidationConfig { max_subintent_depth: max_depth_cfg, ..TransactionValidationConfig::latest() };
+    let validator = TransactionValidator::new_with_static_config(cfg, NETWORK);
+    let o = Opts { max_body: 1, max_signers: 1, max_depth: 4, ..Opts::default() };
+    let b = gen_partial(g, &o);
+    let p = &b.tx.partial_transaction;
+    let (rh, sub_hashes) = refhash::partial(p);
+    let root = node_of(&p.root_subintent.intent_core, rh);
+    let subs: Vec<Node> = p.non_root_subintents.0.iter().zip(sub_hashes.iter()).map(|(s, h)| node_of(&s.intent_core, *h)).collect();
+    let limit = max_depth_cfg.checked_sub(1);
+    // the root subintent's own YIELD_TO_PARENT count has no counterpart inside a partial transaction
+    let (viol, max_depth) = violated(&root, &subs, limit);
+    for c in &viol {
+        g.label(c.label());
+    }
+    g.label("root: subintent");
+    if max_depth_cfg == 0 {
+        g.label("max_subintent_depth 0, subintent root");
+    }
+    g.label(if viol.is_empty() { "reference: well-formed" } else { "reference: ill-formed" });
+    if limit.map(|l| max_depth == l || max_depth == l + 1).unwrap_or(true) {
+        g.nontrivial();
+    }
+    g.sample(|| format!("real signed partial transaction under max_subintent_depth {}, reference violations {:?}: {}", max_depth_cfg, viol, render_nodes(&root, &subs)));
+    let tx = b.tx.clone();
+    let got = catch(|| tx.prepare_and_validate(&validator).map(|_| ()));
+    let detail = || format!("max_subintent_depth {}, max depth below the root {}\n{}\npayload {}", max_depth_cfg, max_depth, render_nodes(&root, &subs), hex::encode(b.tx.to_raw().unwrap().as_slice()));
+    match got {
+        Err(p) if max_depth_cfg == 0 => Outcome::fail(PANIC_DEPTH0, format!("{}\n{}", p, detail())),
+        Err(p) => Outcome::fail("validation of a signed partial transaction panics", format!("{}\n{}", p, detail())),
+        Ok(Ok(())) => {
+            if viol.is_empty() {
+                Outcome::Pass
+            } else {
+                Outcome::fail(
+                    format!("ill-formed subintent structure is accepted ({})", viol.iter().map(|c| c.label()).collect::<Vec<_>>().join(" + ")),
+                    format!("violated clauses {:?}\n{}", viol, detail()),
+                )
+            }
+        }
+        Ok(Err(e)) => {
+            if viol.is_empty() {
+                Outcome::fail("well-formed subintent tree is rejected", format!("error {:?}\n{}", e, detail()))
+            } else {
+                match e {
+                    TransactionValidationError::SubintentStructureError(..) => Outcome::Pass,
+                    other => Outcome::fail("ill-formed tree of individually valid intents is rejected for an unrelated reason", format!("error {:?}\n{}", other, detail())),
+                }
+            }
+        }
+    }
+}
+
 pub fn check() -> Check {
     Check::new(
         "C35",
         "Subintent structure validation accepts exactly well-formed trees",
-        "part mock: harness intents implementing the public IntentTreeStructure / IntentStructure traits (distinct non-zero hashes; root = transaction intent or subintent; max_subintent_depth 1-4) form a well-formed tree of 0-8 subintents with chains around the depth limit (limit-1 .. limit+2) and matching yield counts, then 0-2 mutations: duplicate subintent, second parent (incl. a descendant as parent = reachable cycle), child listed twice, unreachable cycle, self loop, parentless subintent, subintent removed from the list, unknown child declared, yield count off by one, list reordered. A graph reference decides well-formedness from the statement's clauses (distinct, every declared child present, in-degree exactly 1, reachable, depth <= limit, yields equal per edge); validate_intents_and_structure must accept iff well-formed (verdict only). part real: the same on prepared real V2 transaction intents (generated with nesting up to depth 4 against the live limit 3) with model-level mutations. Non-trivial = >= 3 subintents and exactly one violated clause, or accepted with the deepest subintent exactly at the limit.",
+        "part mock: harness intents implementing the public IntentTreeStructure / IntentStructure traits (distinct non-zero hashes; root = transaction intent or subintent; max_subintent_depth 0-4) form a well-formed tree of 0-8 subintents with chains around the depth limit (limit-1 .. limit+2) and matching yield counts, then 0-2 mutations: duplicate subintent, second parent (incl. a descendant as parent = reachable cycle), child listed twice, unreachable cycle, self loop, parentless subintent, subintent removed from the list, unknown child declared, yield count off by one, list reordered. A graph reference decides well-formedness from the statement's clauses (distinct, every declared child present, in-degree exactly 1, reachable, depth <= limit, yields equal per edge); validate_intents_and_structure must accept iff well-formed (verdict only). part real: the same on prepared real V2 transaction intents (generated with nesting up to depth 4 against the live limit 3) with model-level mutations. part real_partial: real signed partial transactions (subintent root, nesting up to 3 below it) validated through prepare_and_validate under max_subintent_depth 0-3. Depth reading: a subintent root gets max_subintent_depth - 1 levels below it; with max_subintent_depth 0 a subintent root is itself too deep, so nothing with a subintent root is accepted. Non-trivial = >= 3 subintents and exactly one violated clause, or accepted with the deepest subintent exactly at the limit.",
     )
     .assume("the all-zero hash (the code's internal placeholder) and a non-root subintent carrying the root subintent's own hash are not generated: neither is a reachable hash relation")
-    .assume("max_subintent_depth >= 1 (with 0 and a subintent root the code computes 0 - 1)")
     .part(Part::new("mock", 12_000_000, 400_000_000, 160, mock_case))
     .part(Part::new("real", 300_000, 10_000_000, 1500, real_case))
+    .part(Part::new("real_partial", 100_000, 3_000_000, 1500, real_partial_case))
     .min_nontrivial_pct(10.0)
 }
